@@ -105,6 +105,15 @@ impl BlockCache {
 		}
 	}
 
+	/// Drops every cached block and value.
+	///
+	/// Entries are keyed by table id / value-log file id plus offset. When the files
+	/// behind those ids are replaced wholesale (restore from a checkpoint) the ids are
+	/// handed out again for different content, so everything cached must go.
+	pub(crate) fn clear(&self) {
+		self.data.clear();
+	}
+
 	/// Inserts a data block into the cache.
 	pub(crate) fn insert_data_block(&self, table_id: u64, offset: u64, block: Arc<Block>) {
 		self.data.insert((KIND_DATA, table_id, offset).into(), Item::Data(block));
